@@ -24,6 +24,10 @@ def eval_doc(args):
     p = os.path.join(workdir, f'd{os.getpid()}.xml'); open(p, 'w').write(doc)
     sources = {'text': lambda: doc, 'bytes': lambda: doc.encode(), 'path': lambda: p, 'url': lambda: 'file://' + p, 'open-text': lambda: open(p), 'open-bin': lambda: open(p, 'rb'),
                'StringIO': lambda: io.StringIO(doc), 'etree': lambda: ET.parse(p), 'element': lambda: ET.parse(p).getroot(), 'resource': lambda: xmlschema.XMLResource(p)}
+    try:
+        import lxml.etree as LE
+        sources['lxml-tree'] = lambda: LE.parse(p); sources['lxml-element'] = lambda: LE.parse(p).getroot()
+    except ImportError: pass
     base = None
     for sname, mk in sources.items():
         def use(f):
@@ -61,7 +65,7 @@ def eval_doc(args):
         if pk_valid != valid or [strip_reason(x) for x in pk_lax] != [strip_reason(x) for x in lax]: problems.append('package-level function differs from the method')
         if pk_d != dlax: problems.append('to_dict differs from decode')
         if not lax and not (ds[1] == dlax[0] == dskip): problems.append('data of a valid document depends on the validation mode')
-        data_key = dlax[0] if sname not in ('etree', 'element') else None
+        data_key = dlax[0] if sname not in ('etree', 'element', 'lxml-tree', 'lxml-element') else None
         # bare Element / ElementTree sources carry no prefix map: their paths use {uri}local steps, so paths are compared in expanded form
         cmp_errs = [(c, (pth or '').replace('t:', '{urn:t}')) for c, pth, _ in lax]
         if base is None: base = (cmp_errs, data_key, sname)
@@ -90,7 +94,10 @@ def run(tier, seed, open_findings):
         open(os.path.join(workdir, 's.xsd'), 'w').write(docgen.SCHEMA)
         docs = []
         for i in range(n):
-            d = docgen.gen(rng, rng.randrange(1, 4)); docs.append(docgen.faulty(rng, d, i % 3))
+            d = docgen.gen(rng, rng.randrange(1, 4)); d = docgen.faulty(rng, d, i % 3)
+            if i % 4 == 1:       # comments and a processing instruction inside simple content: not data, whatever the parser keeps of them
+                d = d.replace('<t:qty>', '<t:qty><!-- c -->', 1).replace('</t:name>', '<?pi x?></t:name>', 1).replace('</t:leaf>', '<!-- c --></t:leaf>', 1)
+            docs.append(d)
         # every ordered pair of faults on one fixed document: two faults meeting in one element (a content-model error and a value error of a child)
         # is what separates 'strict raises the first error that lax collects' from 'strict raises some error'
         base = docgen.gen(random.Random(7), 2)
@@ -103,7 +110,7 @@ def run(tier, seed, open_findings):
         jobs = [(ver, d, workdir) for d in docs for ver in ('1.0', '1.1')]
         res = pmap(eval_doc, jobs)
         fails = [dict(case=dict(doc=r['doc'], ver=r['ver']), observed=dict(source=r['source'], problem=r['problem'], errors=r.get('lax')), required='all entry points, modes and source kinds agree') for r in res if r]
-        out = [result('C04.entry_points_agree', f'{len(docs)} generated documents (0-2 faults) x 2 classes x 10 source kinds x 9 entry points', len(jobs) * 10, fails,
+        out = [result('C04.entry_points_agree', f'{len(docs)} generated documents (0-2 faults) x 2 classes x 12 source kinds (lxml trees included) x 9 entry points', len(jobs) * 12, fails,
                       samples=[dict(doc=docs[1][:200])], distinct=len(set(docs)) * 2)]
         cfail = []
         counts = (0, 1, 255, 256, 257, 512) if tier == 'thorough' else (0, 1, 255, 256, 512)
